@@ -34,7 +34,7 @@ ANCHORS = [
     "acnportal.acnsim.interface:Interface.remaining_amp_periods",
     "acnportal.algorithms.base_algorithm:BaseAlgorithm.run",
 ]
-REQUIRED = ["runs_resumed_after_a_scheduler_exception", "deep_copied_algorithm_and_simulator_runs", "interface_queried_at_registration", "invocations_judged", "invocations_without_event", "runs_judged", "mutating_twins", "active_sets_judged",
+REQUIRED = ["schedulers_attached_with_update_scheduler", "runs_resumed_after_a_scheduler_exception", "deep_copied_algorithm_and_simulator_runs", "interface_queried_at_registration", "invocations_judged", "invocations_without_event", "runs_judged", "mutating_twins", "active_sets_judged",
             "sessions_filtered_as_satisfied", "pilot_queries_judged", "infrastructure_judged", "regime:mr-None", "regime:mr-1",
             "regime:mr-k", "inner:scripted", "inner:uncontrolled", "inner:sorted"]
 BUDGET_S = {"quick": 240, "thorough": 3000}
@@ -54,6 +54,8 @@ def cases(seed, tier):
             d = gen.scenario(rng, sched="sorted", kinds=("EVSE", "FR"), noise_p=0.0, est=None)
         out.append({"desc": d, "copy_pair": rng.choice(["dict", "tuple"]) if rng.random() < 0.15 else None,
                     "fault_at": rng.choice([0, 1, 2, 3, 5]) if rng.random() < 0.25 else None})
+        if rng.random() < 0.15 and not out[-1]["copy_pair"]:
+            d["swap_from"] = {"mr": rng.choice([1, 2, 3, 7, None]), "json": rng.random() < 0.4}
     return out
 
 
@@ -195,7 +197,31 @@ def _run(d, mutate, copy_pair=False, fault_at=None, fault_box=None):
     rec = []
     inner = build.build_scheduler(d)
     sch = make_wrapper(inner, mutate, rec, fault_at, fault_box)
-    sim, evs = build.build_sim(d, scheduler=sch)
+    swap = d.get("swap_from")
+    if swap is not None:
+        # the simulator is first built with ANOTHER scheduler (other recompute interval, possibly after a JSON round trip) and
+        # the scheduler under observation is attached with the public update_scheduler(); its interval is what counts from then on
+        from acnportal.acnsim import Simulator
+        from acnportal.algorithms import BaseAlgorithm
+
+        class Placeholder(BaseAlgorithm):
+            def __init__(self, mr):
+                super().__init__()
+                self.max_recompute = mr
+
+            def schedule(self, active_sessions):
+                return {}
+
+        sim, evs = build.build_sim(d, scheduler=Placeholder(swap["mr"]))
+        if swap.get("json"):
+            import warnings as _w
+            with _w.catch_warnings():
+                _w.simplefilter("ignore")
+                sim = Simulator.from_json(sim.to_json())
+            evs = list(sim.ev_history.values())
+        sim.update_scheduler(sch)
+    else:
+        sim, evs = build.build_sim(d, scheduler=sch)
     if copy_pair:
         # an experiment record holding the algorithm and the simulator is deep-copied and the COPY is run: its scheduler must
         # observe the copy's own state (the recording list is shared through the closure, so observations still arrive here)
@@ -227,6 +253,8 @@ def run_case(case, obs):
     sim, evs, probe, rec = _run(d, False, copy_pair=case.get("copy_pair"), fault_at=case.get("fault_at"), fault_box=fbox)
     if fbox.get("fired"):
         obs.ev("runs_resumed_after_a_scheduler_exception")
+    if d.get("swap_from") is not None:
+        obs.ev("schedulers_attached_with_update_scheduler")
     if case.get("copy_pair"):
         obs.ev("deep_copied_algorithm_and_simulator_runs")
     wit = dict(scenario=d, copy_pair=case.get("copy_pair"))
